@@ -475,6 +475,56 @@ func (fr *Frame) loopHead(li *loopInfo, phis []*ssa.Phi) {
 			}
 		}
 	}
+	// address-taken local variables of this function that the loop assigns
+	// are part of the loop's state like any phi: designated implicitly
+	if li.declared != nil {
+		for b := range li.blocks {
+			for _, in := range b.Instrs {
+				st, ok := in.(*ssa.Store)
+				if !ok {
+					continue
+				}
+				a := st.Addr
+				for {
+					if fa, ok := a.(*ssa.FieldAddr); ok {
+						a = fa.X
+						continue
+					}
+					break
+				}
+				al, ok := a.(*ssa.Alloc)
+				if !ok || al.Parent() != fr.fn || al.Comment == "" || al.Comment == "complit" || al.Comment == "new" || al.Comment == "slicelit" || al.Comment == "makeslice" || al.Comment == "varargs" {
+					continue
+				}
+				v, has := fr.vals[al]
+				if !has {
+					continue
+				}
+				elem := al.Type().(*types.Pointer).Elem()
+				if _, isArr := elem.Underlying().(*types.Array); isArr {
+					continue
+				}
+				var l *Loc
+				if v.loc != nil {
+					l = v.loc
+				} else {
+					l = &Loc{kind: locField, ref: v.t, root: fr.eng.fieldRoot(elem), typ: elem}
+				}
+				for _, leaf := range leafLocs(l) {
+					n := fr.vc.registerHeap(leaf)
+					dup := false
+					for _, r := range li.declared[n] {
+						if r == leaf.ref {
+							dup = true
+						}
+					}
+					if !dup {
+						li.declared[n] = append(li.declared[n], leaf.ref)
+					}
+				}
+			}
+		}
+	}
 	starAll := false
 	for _, m := range li.lc.Modifies {
 		if m.Src == "*" {
@@ -655,24 +705,32 @@ func (fr *Frame) loopLatch(li *loopInfo, from *ssa.BasicBlock) {
 
 // isRangeIndexPhi: phi [entry: -1, latch: phi + 1].
 func isRangeIndexPhi(ph *ssa.Phi) bool {
+	// every edge is either the initial -1 or this phi plus one (a loop body
+	// with several ways back to the head has one step edge per latch)
 	okInit, okStep := false, false
 	for _, e := range ph.Edges {
 		switch x := e.(type) {
 		case *ssa.Const:
 			if bi, ok := constBig(x); ok && bi.Int64() == -1 {
 				okInit = true
+				continue
 			}
+			return false
 		case *ssa.BinOp:
 			if x.Op == token.ADD && x.X == ssa.Value(ph) {
 				if c, ok := x.Y.(*ssa.Const); ok {
 					if bi, ok := constBig(c); ok && bi.Int64() == 1 {
 						okStep = true
+						continue
 					}
 				}
 			}
+			return false
+		default:
+			return false
 		}
 	}
-	return okInit && okStep && len(ph.Edges) == 2
+	return okInit && okStep
 }
 
 func wholeDeclared(li *loopInfo, h string) bool {
